@@ -131,6 +131,9 @@ def decode(rc):
         okr = okr or any(tm.is_(r.value, "dict(_AS)", {"_AS": b2["_AS"]}) is not None or tm.is_(r.value, "{_k: _v for _k, _v in _AS}", {"_AS": b2["_AS"]}) is not None for r in returns_of(f) if r.value is not None)
         if not okr:
             rc.fail(f, f.node, f"{cname}.map_query must return every (variable, state name) pair of the decoded assignment", construct=f"{cname} result pairs")
+    # the factor handed to the decoder keeps variables / cardinality / values together wherever inference code touches them
+    from . import shared as _sh
+    _sh.external_layout_rule(rc, ("pgmpy/inference/", "pgmpy/models/"))
     am = repo.func("pgmpy/utils/compat_fns.py", "argmax")
     rc.ob(f"compat_fns.argmax: {norm(am.node, 200)[-90:]}")
     if "argmax()" not in norm(am.node, 2000) and "argmax(" not in norm(am.node, 2000):
@@ -193,6 +196,34 @@ def scope(rc):
     arg = [n.lineno for n, _ in tm.find_all(b.node, "_AM = compat_fns.argmax(_FD.values)")]
     if not init or not arg:
         raise AnalysisError("BP.map_query: restore / decode statements not found")
+    # the joint that is maximised multiplies every remaining factor once (no value-keyed set of factors on the way)
+    from . import shared as _sh
+    _sh.value_keyed_factor_rule(rc, [(EI, "VariableElimination._variable_elimination"), (EI, "VariableElimination._get_working_factors"), (EI, "BeliefPropagation._query")])
+    # BayesianNetwork.predict (deterministic): ONE map_query over ALL missing variables per distinct row (joint MAP, not per-variable modes)
+    BNF = "pgmpy/models/BayesianNetwork.py"
+    pr = repo.func(BNF, "BayesianNetwork.predict")
+    _, bmv = tm.find(pr.node, "_MV = set(self.nodes()) - set(data.columns)")
+    mq = [c for c in ast.walk(pr.node) if isinstance(c, ast.Call) and isinstance(c.func, ast.Call) and call_name(c.func) == "delayed" and c.func.args
+          and isinstance(c.func.args[0], ast.Attribute) and c.func.args[0].attr == "map_query"]
+    mq += [c for c in ast.walk(pr.node) if isinstance(c, ast.Call) and call_name(c) == "map_query" and isinstance(c.func, ast.Attribute)]
+    if bmv is None or not mq:
+        raise AnalysisError("BayesianNetwork.predict: missing-variable set / map_query call not found")
+    for c in mq:
+        vv = kwarg(c, "variables") or (c.args[0] if c.args else None)
+        okv = isinstance(vv, ast.Name) and vv.id == bmv["_MV"] or tm.is_(vv, "list(_MV)", bmv) is not None
+        # the call must not sit under a generator / loop over the missing variables
+        per_var = False
+        p_ = getattr(c, "_parent", None)
+        while p_ is not None and p_ is not pr.node:
+            gens = p_.generators if isinstance(p_, (ast.GeneratorExp, ast.ListComp)) else []
+            its = [g.iter for g in gens] + ([p_.iter] if isinstance(p_, ast.For) else [])
+            if any(any(isinstance(x, ast.Name) and x.id == bmv["_MV"] for x in ast.walk(it)) for it in its):
+                per_var = True
+            p_ = getattr(p_, "_parent", None)
+        rc.ob(f"predict -> map_query(variables={norm(vv) if vv is not None else None}) once per distinct row: {bool(okv) and not per_var}")
+        if not okv or per_var:
+            rc.fail(pr, c, "predict must decode the JOINT MAP over all missing variables with one map_query per row; per-variable queries return the marginal modes, "
+                    "which need not be a jointly most probable completion", construct="predict per-variable MAP")
     # max_marginal: maximises the joint's table
     mm = repo.func(EI, "VariableElimination.max_marginal")
     cm = calls_named(mm, "_variable_elimination")
@@ -209,6 +240,11 @@ def defuse(rc):
     _sh.defuse_rule(rc, _sh.anchor_files("C03"))
 
 MUTANTS = [
+    dict(kind="break", name="predict-per-variable-map", file="pgmpy/models/BayesianNetwork.py", expect="C03.scope",
+         old="                delayed(model_inference.map_query)(\n                    variables=missing_variables,", new="                delayed(model_inference.map_query)(\n                    variables=[list(missing_variables)[0]],"),
+    dict(kind="break", name="joint-axes-reordered-without-cardinality", file=EI, expect="C03.decode",
+         old="        if joint:\n            if isinstance(self.model, BayesianNetwork):\n                return factor_product(*final_distribution).normalize(inplace=False)",
+         new="        if joint:\n            if isinstance(self.model, BayesianNetwork):\n                phi = factor_product(*final_distribution).normalize(inplace=False)\n                order = [phi.variables.index(v) for v in variables]\n                phi.values = compat_fns.transpose(phi.values, order)\n                phi.variables = [phi.variables[i] for i in order]\n                return phi"),
     dict(kind="break", name="assignment-forward-cardinalities", file=DF, expect="C03.decode",
          old="        rev_card = self.cardinality[::-1]\n", new="        rev_card = self.cardinality[:]\n"),
     dict(kind="break", name="assignment-carry-before-digit", file=DF, expect="C03.decode",
